@@ -174,6 +174,10 @@ func vRStart(dir string, now int64, ndb int, bufSize, rewriteSize, aofTime uint)
 	if err := s.initLeader(); err != nil {
 		return n, err
 	}
+	// LoadAndInit waits with WaitFlushAofChannel, whose waiter is closed as soon as the count of ACTIVE channels touches zero —
+	// which can happen while another database's channel has records queued but its goroutine has not woken up yet. The server
+	// then finishes the replay a moment later; the harness must not look before that.
+	n.settleLoad()
 	n.setClock(now)
 	n.waitRewrite()
 	n.conn = NewMemWaiterServerProtocol(s)
@@ -1321,6 +1325,26 @@ func (n *vRNode) waitRewriteIfRotated() {
 	aof.aofGlock.Unlock()
 	if idx > 1 {
 		n.drainQuick()
+	}
+}
+
+// settleLoad: every AofChannel queue is empty and no channel is active, observed twice in a row.
+func (n *vRNode) settleLoad() {
+	aof := n.s.aof
+	quiet := 0
+	for i := 0; i < 4000 && quiet < 2; i++ {
+		q := 0
+		for _, ch := range aof.channels {
+			ch.queueGlock.Lock()
+			q += ch.queueCount
+			ch.queueGlock.Unlock()
+		}
+		if q == 0 && atomic.LoadUint32(&aof.channelActiveCount) == 0 {
+			quiet++
+		} else {
+			quiet = 0
+		}
+		time.Sleep(300 * time.Microsecond)
 	}
 }
 
